@@ -1,6 +1,7 @@
 import SafeC.Props.C01
 import SafeC.Proofs.ExtStp
 import SafeC.Proofs.CopyDisjoint
+import SafeC.Proofs.ExtExact
 /-!
 # C08 (extension) — after success nothing stale remains behind the terminator: the wide twins and the stp pair
 
@@ -14,7 +15,10 @@ this is "the terminator is present".  For the stp pair the returned pointer is `
 returned pointer is the address of the terminator).
 
 **Valid non-overlapping operands** (`*_C08_exact`): `t` is the length of the result and the cells in front
-of the terminator are exactly the result (both builds): wcsncpy_s, wcscat_s with the object size unknown.
+of the terminator are exactly the result (both builds): wcsncpy_s, wcscat_s, wcsncat_s with the object
+sizes unknown; stpcpy_s, stpncpy_s with the object sizes unknown or known (the returned pointer is
+`dest + length`).  These are stated with ONLY the declared extents mapped/readable/writable, so
+`st'.strays = st.strays` also says that nothing else was touched.
 
 FALSE of the code and therefore partial: `wcsncpy_s` with `slen == 0` stores one NUL and returns EOK
 without nulling the rest (recorded finding `strncpy-slen0-shortcut`): `wcsncpy_s_C08_partial` has
@@ -150,6 +154,70 @@ theorem wcscat_s_C08_exact (cfg : Cfg) (dest dmax src dl n : Nat) (st : St)
   obtain ⟨hc, _, h3, h4, h5, h6⟩ := hok hfit
   subst hc
   exact ⟨st', he, hstr, h3, h4, h5, h6⟩
+
+/-- wcsncat_s on valid non-overlapping operands (dest holds a string of length dl; `m` source characters
+are appended: the source string is shorter than slen and `m` its length, or `m = slen`; `dl + m < dmax`):
+EOK, `dest = old dest ++ src[0..m)`, terminator at `dl + m` (both builds), null-slack: zeros behind -/
+theorem wcsncat_s_C08_exact (cfg : Cfg) (dest dmax src slen dl m : Nat) (st : St)
+    (hd : dest ≠ 0) (hs : src ≠ 0) (hpos : 0 < dmax) (hle : dmax ≤ RSIZE_MAX_WSTR)
+    (hslen : 0 < slen) (hslenle : slen ≤ RSIZE_MAX_WSTR)
+    (hrw : RW st dest dmax)
+    (hnz : ∀ j, j < m → st.data (src+j) ≠ 0)
+    (hrd : ∀ j, j < m → st.mapped (src+j) = true ∧ st.rd (src+j) = true)
+    (hfin : (m < slen ∧ st.data (src+m) = 0 ∧ st.mapped (src+m) = true ∧ st.rd (src+m) = true) ∨ slen = m)
+    (hdisj : dest + dmax ≤ src ∨ src + m < dest)
+    (hdl : dl < dmax) (hdnz : ∀ j, j < dl → st.data (dest+j) ≠ 0) (hdnul : st.data (dest+dl) = 0)
+    (hfit : dl + m < dmax) :
+    ∃ st', exec (wcsncat_s cfg dest dmax src slen none none) st = .ok (EOK, st') ∧
+      st'.strays = st.strays ∧
+      (∀ i, i < dl → st'.data (dest+i) = st.data (dest+i)) ∧
+      (∀ i, i < m → st'.data (dest+dl+i) = st.data (src+i)) ∧ st'.data (dest+dl+m) = 0 ∧
+      (cfg.slack = true → ∀ i, dl + m ≤ i → i < dmax → st'.data (dest+i) = 0) := by
+  obtain ⟨code, st', he, _, _, _, hstr, _, hok, _⟩ :=
+    wcsncat_s_disjoint cfg dest dmax src slen dl m st hd hs hpos hle hslen hslenle hrw hnz hrd hfin hdisj hdl hdnz hdnul
+  obtain ⟨hc, _, h3, h4, h5, h6⟩ := hok hfit
+  subst hc
+  exact ⟨st', he, hstr, h3, h4, h5, h6⟩
+
+/-- stpcpy_s on valid non-overlapping operands, source string of length `n < dmax` (object sizes unknown,
+or known with dmax inside dest's and the string inside the source's): `*errp = EOK`, the returned pointer is
+`dest + n`, `dest[0..n) = src[0..n)`, `dest[n] = 0` (both builds), null-slack: `dest[n..dmax) = 0`;
+no handler call, nothing outside the declared extents touched -/
+theorem stpcpy_s_C08_exact (cfg : Cfg) (dest dmax src n : Nat) (destbos srcbos : Bos) (st : St)
+    (hd : dest ≠ 0) (hs : src ≠ 0) (hpos : 0 < dmax) (hle : dmax ≤ RSIZE_MAX_STR)
+    (hb : ∀ b, destbos = some b → dmax ≤ b) (hsb : ∀ sb, srcbos = some sb → n < sb)
+    (hrw : RW st dest dmax) (hsrc : SrcStr st src n) (hdisj : Disjoint dest dmax src n) (hfit : n < dmax) :
+    ∃ st', exec (stpcpy_s cfg dest dmax src destbos srcbos) st = .ok ((dest + n, EOK), st') ∧
+      st'.strays = st.strays ∧ st'.events = st.events ∧
+      (∀ i, i < n → st'.data (dest+i) = st.data (src+i)) ∧ st'.data (dest+n) = 0 ∧
+      (cfg.slack = true → ∀ i, n ≤ i → i < dmax → st'.data (dest+i) = 0) := by
+  obtain ⟨r, st', he, _, _, _, hstr, _, hok, _⟩ :=
+    stpcpy_s_disjoint cfg dest dmax src n destbos srcbos st hd hs hpos hle hb hsb hrw hsrc hdisj
+  obtain ⟨hr, h2, h3, h4, h5⟩ := hok hfit
+  subst hr
+  exact ⟨st', he, hstr, h2, h3, h4, h5⟩
+
+/-- stpncpy_s on valid non-overlapping operands, `m < dmax` characters copied (the source string is shorter
+than slen and `m` its length, or `m = slen`; slen inside a known source object): `*errp = EOK`, the returned
+pointer is `dest + m`, `dest[0..m) = src[0..m)`, `dest[m] = 0` (both builds), null-slack: zeros behind -/
+theorem stpncpy_s_C08_exact (cfg : Cfg) (dest dmax src slen m : Nat) (destbos srcbos : Bos) (st : St)
+    (hd : dest ≠ 0) (hs : src ≠ 0) (hpos : 0 < dmax) (hle : dmax ≤ RSIZE_MAX_STR)
+    (hslenle : slen ≤ RSIZE_MAX_STR)
+    (hb : ∀ b, destbos = some b → dmax ≤ b) (hsb : ∀ sb, srcbos = some sb → slen ≤ sb)
+    (hrw : RW st dest dmax)
+    (hnz : ∀ j, j < m → st.data (src+j) ≠ 0)
+    (hrd : ∀ j, j < m → st.mapped (src+j) = true ∧ st.rd (src+j) = true)
+    (hfin : (m < slen ∧ st.data (src+m) = 0 ∧ st.mapped (src+m) = true ∧ st.rd (src+m) = true) ∨ slen = m)
+    (hdisj : dest + dmax ≤ src ∨ src + m < dest) (hfit : m < dmax) :
+    ∃ st', exec (stpncpy_s cfg dest dmax src slen destbos srcbos) st = .ok ((dest + m, EOK), st') ∧
+      st'.strays = st.strays ∧ st'.events = st.events ∧
+      (∀ i, i < m → st'.data (dest+i) = st.data (src+i)) ∧ st'.data (dest+m) = 0 ∧
+      (cfg.slack = true → ∀ i, m ≤ i → i < dmax → st'.data (dest+i) = 0) := by
+  obtain ⟨r, st', he, _, _, _, hstr, _, hok, _⟩ :=
+    stpncpy_s_disjoint cfg dest dmax src slen m destbos srcbos st hd hs hpos hle hslenle hb hsb hrw hnz hrd hfin hdisj
+  obtain ⟨hr, h2, h3, h4, h5⟩ := hok hfit
+  subst hr
+  exact ⟨st', he, hstr, h2, h3, h4, h5⟩
 
 /-- non-vacuity of the general theorems: dest = 5 writable cells at 100 in a 20-byte (wide) / 5-byte object -/
 example : Setting exSt ∧ RW exSt 100 5 ∧ (100 : Nat) ≠ 0 ∧ 0 < 5 ∧ 5 ≤ RSIZE_MAX_WSTR ∧ 5 ≤ RSIZE_MAX_STR ∧
